@@ -132,9 +132,9 @@ PerturbOut(cs, pt) ==
                              <<pic \o <<" ">> \o UnlexTok(<<pt.kind, 0>>), base(NoOv) \o <<" ", "0", "1">>>> ELSE none
     [] pt.kind = "inapp" -> IF n < MaxFields - 1 /\ base(NoOv) # NA THEN
                              <<pic \o <<" ">> \o UnlexTok(InappTok(ty)), base(NoOv) \o <<" ", "0", "1">>>> ELSE none
-    [] pt.kind = "over_us" -> IF ty = "DT" /\ has({"ff"}) /\ f.d = DtMaxDays THEN <<pic, base([kind |-> "us", val |-> 1])>> ELSE none
-    [] pt.kind = "over_ss" -> IF ty = "DT" /\ has({"ss"}) /\ f.d = DtMaxDays THEN <<pic, base([kind |-> "ss", val |-> 1])>> ELSE none
-    [] pt.kind = "over_mm" -> IF ty = "YM" /\ has({"mm"}) /\ f.y = 178000000 THEN <<pic, base([kind |-> "mm", val |-> 1])>> ELSE none
+    [] pt.kind = "over_us" -> IF ty = "DT" /\ has({"ff"}) /\ has({"dd"}) /\ f.d = DtMaxDays /\ FirstOf(toks, n, {"ff"})[2] \in {0, 6, 7, 8, 9} THEN <<pic, base([kind |-> "us", val |-> 1])>> ELSE none
+    [] pt.kind = "over_ss" -> IF ty = "DT" /\ has({"ss"}) /\ has({"dd"}) /\ f.d = DtMaxDays THEN <<pic, base([kind |-> "ss", val |-> 1])>> ELSE none
+    [] pt.kind = "over_mm" -> IF ty = "YM" /\ has({"mm"}) /\ has({"year"}) /\ f.y = 178000000 THEN <<pic, base([kind |-> "mm", val |-> 1])>> ELSE none
     [] pt.kind = "garbage" -> IF base(NoOv) # NA THEN <<pic, base(NoOv) \o (IF pt.val = 0 THEN <<"x">> ELSE <<" ", "7">>)>> ELSE none
 
 \* (A) for lossless pictures the renderer's text is the canonical spelling and denotes the value
